@@ -79,7 +79,8 @@ fn check_key(shape: &Value, case: &Value, seed: u64, st: &Stats) -> Result<Strin
         match s["role"].as_str().unwrap() {
             "sign" => { b.can_sign(true); }
             "auth" => { b.can_authenticate(true); }
-            _ => { b.can_encrypt(EncryptionCaps::All); }
+            // the role "encrypt" of the specification is refined per seed into the three capability sets the builder offers
+            _ => { b.can_encrypt(match (seed + sks.len() as u64) % 3 { 0 => EncryptionCaps::All, 1 => EncryptionCaps::Communication, _ => EncryptionCaps::Storage }); }
         }
         sks.push(b.build().map_err(|x| x.to_string()));
     }
@@ -146,7 +147,8 @@ fn check_key(shape: &Value, case: &Value, seed: u64, st: &Stats) -> Result<Strin
         let b = &sk.signatures[0];
         let role = s["role"].as_str().unwrap();
         let kf = b.key_flags();
-        if kf.sign() != (role == "sign") || kf.authentication() != (role == "auth") || kf.encrypt_comms() != (role == "encrypt") || kf.encrypt_storage() != (role == "encrypt") || kf.certify() {
+        let (want_comms, want_storage) = if role == "encrypt" { match (seed + i as u64) % 3 { 0 => (true, true), 1 => (true, false), _ => (false, true) } } else { (false, false) };
+        if kf.sign() != (role == "sign") || kf.authentication() != (role == "auth") || kf.encrypt_comms() != want_comms || kf.encrypt_storage() != want_storage || kf.certify() {
             return Err(format!("subkey {i}: key flags are not the requested ones"));
         }
         let want_back = case["backsig"][i] == true;
@@ -278,6 +280,11 @@ pub fn run(cases_path: &str, out_path: &str, tier: &str, seed: u64) {
         sink.put(rec("c07.seed_sweep", json!({"shape": c["shape"], "seed": s}), r.is_ok(), "keygen", json!({"outcome": r.class(), "detail": match &r { Out::Ok(x) => x.clone(), o => o.detail() }})));
     });
     sink.raw(json!({"ok": true, "check": "c07.stats", "keys_generated": st.keys.load(Ordering::Relaxed)}));
+    // "keys actually sign/verify": for every value of the signature, not only the first one made
+    let sweep_algs: Vec<(&str, bool, Alg, pgp::crypto::hash::HashAlgorithm)> = vec![("rsa2048 v4", false, Alg::Rsa2048, pgp::crypto::hash::HashAlgorithm::Sha256), ("ecdsa-p384 v4", false, Alg::EcdsaP384, pgp::crypto::hash::HashAlgorithm::Sha384),
+        ("ed25519legacy v4", false, Alg::Ed25519Legacy, pgp::crypto::hash::HashAlgorithm::Sha256)];
+    let swept = sign_value_sweep(&sink, "c07.sign_value_sweep", seed ^ 0xC07, &sweep_algs, if thorough { 4000 } else { 1200 });
+    nontrivial.fetch_add(swept, Ordering::Relaxed);
     sink.finish(json!({"cases": cases.len(), "nontrivial": nontrivial.load(Ordering::Relaxed), "keys_generated": st.keys.load(Ordering::Relaxed)}));
 }
 
